@@ -162,3 +162,123 @@ Proof.
   split; [vm_compute; reflexivity|]. split; [vm_compute; reflexivity|]. split; [vm_compute; reflexivity|].
   split; [vm_compute; reflexivity|]. apply anew_wf.
 Qed.
+
+(* ================================================================== opcode level: the index operand *)
+Lemma idx_nonint (iw : N) : as_int iw = None -> idx_of iw = (-1)%Z.
+Proof. unfold idx_of. intros ->. reflexivity. Qed.
+
+(* a non-int index word (float -- integral or not --, bool, null, pointer ...) never selects an
+   element: every load and store arm raises the index error, whatever the container; the lenient
+   Get arms answer null *)
+Lemma nonint_index_is_index_error (c : cwant) (o : hobj) (iw v : N) :
+  as_int iw = None ->
+  op_load c o iw = AErr AEIndex /\ op_store c o iw v = AErr AEIndex /\ op_get c o iw = AOk (Some v_null) o.
+Proof.
+  intro H. unfold op_load, op_store, op_get. rewrite (idx_nonint iw H). repeat split; reflexivity.
+Qed.
+
+(* negative ints as well *)
+Lemma negative_index_is_index_error (c : cwant) (o : hobj) (iw v : N) (z : Z) :
+  as_int iw = Some z -> (z < 0)%Z ->
+  op_load c o iw = AErr AEIndex /\ op_store c o iw v = AErr AEIndex.
+Proof.
+  intros H Hz. unfold op_load, op_store, idx_of. rewrite H.
+  destruct (Z.ltb_spec z 0); [|lia]. split; reflexivity.
+Qed.
+
+Lemma dget_some (d : adata) (i : Z) (w : N) :
+  (0 <= i)%Z -> dget d i = Some w -> (i < Z.of_nat (alen d))%Z /\ aget d (Z.to_nat i) = Some w.
+Proof.
+  intros Hi H. unfold dget in H. destruct (Z.ltb_spec i (Z.of_nat (alen d))); [|discriminate]. split; assumption.
+Qed.
+
+(* a load that produces a value read it at an int index inside the container, left the
+   container unchanged, and (typed storage) the value has the element kind *)
+Lemma load_value_spec (c : cwant) (o o' : hobj) (iw w : N) :
+  op_load c o iw = AOk (Some w) o' ->
+  o' = o /\ exists z d, as_int iw = Some z /\ (0 <= z < Z.of_nat (alen d))%Z /\
+                        (o = HArray d \/ o = HVec d) /\ aget d (Z.to_nat z) = Some w.
+Proof.
+  unfold op_load, idx_of. destruct (as_int iw) as [z|] eqn:E; [|cbn; discriminate].
+  destruct (Z.ltb_spec z 0) as [Hn|Hp]; [discriminate|].
+  destruct o as [d|d|n| |]; try discriminate.
+  - destruct (want_array c); [|discriminate]. destruct (dget d z) as [w'|] eqn:G; [|discriminate].
+    intro H. injection H as <- <-. split; [reflexivity|]. destruct (dget_some d z w' Hp G) as (Hl & Hg).
+    exists z, d. repeat split; auto; lia.
+  - destruct (want_vec c); [|discriminate]. destruct (dget d z) as [w'|] eqn:G; [|discriminate].
+    intro H. injection H as <- <-. split; [reflexivity|]. destruct (dget_some d z w' Hp G) as (Hl & Hg).
+    exists z, d. repeat split; auto; lia.
+  - destruct c; try discriminate. destruct (z <? Z.of_nat n)%Z; discriminate.
+Qed.
+
+(* an int index beyond the length is the index error *)
+Lemma load_out_of_range (c : cwant) (d : adata) (iw : N) (z : Z) :
+  as_int iw = Some z -> (Z.of_nat (alen d) <= z)%Z ->
+  (want_array c = true -> op_load c (HArray d) iw = AErr AEIndex) /\
+  (want_vec c = true -> op_load c (HVec d) iw = AErr AEIndex).
+Proof.
+  intros H Hz. unfold op_load, idx_of, dget. rewrite H.
+  destruct (Z.ltb_spec z 0); [lia|]. destruct (Z.ltb_spec z (Z.of_nat (alen d))); [lia|].
+  split; intros ->; reflexivity.
+Qed.
+
+(* in range: the element *)
+Lemma load_in_range (c : cwant) (d : adata) (iw : N) (z : Z) :
+  as_int iw = Some z -> (0 <= z < Z.of_nat (alen d))%Z ->
+  exists w, aget d (Z.to_nat z) = Some w /\
+    (want_array c = true -> op_load c (HArray d) iw = AOk (Some w) (HArray d)) /\
+    (want_vec c = true -> op_load c (HVec d) iw = AOk (Some w) (HVec d)).
+Proof.
+  intros H Hz. unfold op_load, idx_of, dget. rewrite H.
+  destruct (Z.ltb_spec z 0); [lia|]. destruct (Z.ltb_spec z (Z.of_nat (alen d))); [|lia].
+  assert (Hn : (Z.to_nat z < alen d)%nat) by lia.
+  assert (exists w, aget d (Z.to_nat z) = Some w) as (w & Hw).
+  { destruct d as [l|l|l|l]; cbn [aget alen] in *;
+      (destruct (nth_error l (Z.to_nat z)) eqn:E; [eexists; reflexivity | apply nth_error_None in E; lia]). }
+  exists w. rewrite Hw. split; [reflexivity|]. split; intros ->; reflexivity.
+Qed.
+
+(* the typed load / store arms are the generic index load / store (VecLoadP 167, VecStoreP 175) on
+   every container they accept, for EVERY index word *)
+Lemma typed_load_is_generic_load (d : adata) (iw : N) :
+  op_load WArray (HArray d) iw = op_load WAny (HArray d) iw /\
+  op_load WVec (HVec d) iw = op_load WAny (HVec d) iw.
+Proof. split; reflexivity. Qed.
+
+Lemma typed_store_is_generic_store (d : adata) (iw v : N) :
+  op_store WArray (HArray d) iw v = op_store WAny (HArray d) iw v /\
+  op_store WVec (HVec d) iw v = op_store WAny (HVec d) iw v.
+Proof. split; reflexivity. Qed.
+
+(* a successful store wrote a fitting value at an int index in range *)
+Lemma store_spec (c : cwant) (o o' : hobj) (iw v : N) (r : option N) :
+  op_store c o iw v = AOk r o' ->
+  r = None /\ exists z d d', as_int iw = Some z /\ (0 <= z < Z.of_nat (alen d))%Z /\
+     aset d (Z.to_nat z) v = Some d' /\ word_fits (kind_of_data d) v = true /\
+     ((o = HArray d /\ o' = HArray d') \/ (o = HVec d /\ o' = HVec d')).
+Proof.
+  unfold op_store, idx_of. destruct (as_int iw) as [z|] eqn:E; [|cbn; discriminate].
+  destruct (Z.ltb_spec z 0) as [Hn|Hp]; [discriminate|].
+  destruct o as [d|d|n| |]; try discriminate.
+  - destruct (want_array c); [|discriminate]. unfold dset.
+    destruct (Z.ltb_spec z (Z.of_nat (alen d))); [|discriminate].
+    destruct (aset d (Z.to_nat z) v) as [d'|] eqn:S; [|discriminate].
+    intro HH. injection HH as <- <-. split; [reflexivity|].
+    destruct (aset_spec d d' _ v S) as (_ & _ & Hf & _).
+    exists z, d, d'. repeat split; auto; lia.
+  - destruct (want_vec c); [|discriminate]. unfold dset.
+    destruct (Z.ltb_spec z (Z.of_nat (alen d))); [|discriminate].
+    destruct (aset d (Z.to_nat z) v) as [d'|] eqn:S; [|discriminate].
+    intro HH. injection HH as <- <-. split; [reflexivity|].
+    destruct (aset_spec d d' _ v S) as (_ & _ & Hf & _).
+    exists z, d, d'. repeat split; auto; lia.
+Qed.
+
+Lemma opcode_level_nonvacuous :
+  op_load WArray (HArray (DFloats [0x4025000000000000; 0x4034800000000000])) 0x3FF0000000000000 = AErr AEIndex /\
+  op_load WAny (HVec (DObjects [5; 6])) 0x3FF0000000000000 = AErr AEIndex /\
+  op_load WArray (HArray (DFloats [0x4025000000000000; 0x4034800000000000])) (v_int 1) = AOk (Some 0x4034800000000000) (HArray (DFloats [0x4025000000000000; 0x4034800000000000])) /\
+  op_load WArray (HArray (DInts [1%Z])) (v_int 140737488355327) = AErr AEIndex /\
+  op_store WVec (HVec (DInts [1%Z])) (v_bool true) (v_int 2) = AErr AEIndex /\
+  array_op 136 (HArray (DFloats [0])) v_null 0 = Some (AErr AEIndex).
+Proof. vm_compute. repeat split; reflexivity. Qed.
